@@ -465,7 +465,7 @@ def _detuple(x):
     if isinstance(x, list):
         y = [_detuple(v) for v in x]
         if y and isinstance(y[0], str) and y[0] in ("reg", "imm", "lit", "var", "cast", "un", "bin", "shift", "cmp", "log", "not", "tern", "macro",
-                                                       "call", "post", "stmtexpr", "load", "decl", "assign", "store", "if", "for", "jump", "raw",
+                                                       "call", "post", "stmtexpr", "load", "decl", "assign", "store", "if", "for", "jump", "raw", "seqexpr", "vcall", "chain", "ret",
                                                        "exprstmt", "block", "andcmp", "intand"):
             # argument lists and statement lists stay lists
             return tuple(v if not (isinstance(v, tuple) and False) else v for v in y)
